@@ -12,8 +12,8 @@ func f(path, data string) Entry { return Entry{Path: path, Data: data} }
 func d(path string) Entry       { return Entry{Path: path, Dir: true} }
 
 func prog(init Dump, calls ...Call) Program { return Program{Init: init, Calls: calls} }
-func c1(op, p string) Call                   { return Call{Op: op, P: p} }
-func c2(op, p, q string) Call                { return Call{Op: op, P: p, Q: q} }
+func c1(op, p string) Call                  { return Call{Op: op, P: p} }
+func c2(op, p, q string) Call               { return Call{Op: op, P: p, Q: q} }
 
 // corpus: every row of the copy / move destination-shape tables, each defect of DESIGN.md section 6 (D12, D24..D28) and
 // the empty-name calls, each followed by queries so that the result is observed through the API as well.
@@ -47,14 +47,18 @@ func corpus(r *h.Run) {
 	add(base, c2("copy", "c", "/"))
 	add(base, c2("move", "c", "/"))
 	add(base, c2("copy", "a/e.txt", "a/e.txt"))
+	// a directory merged into one of its own parents would write into its own source
+	add(Dump{f("a/b/c/b/e.txt", "one"), f("a/b/c/b/c/b/e.txt", "two")}, c2("copy", "a/b/c/b", "a"), c1("read", "a/b/c/b/e.txt"))
+	add(Dump{f("a/b/c/b/e.txt", "one"), f("a/b/c/b/c/b/e.txt", "two")}, c2("move", "a/b/c/b", "a"), c1("read", "a/b/c/b/e.txt"))
+	add(Dump{f("a/b/a/e.txt", "one"), d("a/b/a/b/a")}, c2("copytodir", "a/b/a", "/"), c1("tree", "/"))
 	// D24 / D25: move into an existing directory (empty, non-empty, containing the name)
 	add(base, c2("move", "c", "d"))
 	add(base, c2("move", "c", "a"))
-	add(base, c2("move", "c", "b"))         // b/c exists: overwritten
-	add(base, c2("move", "a", "d"))         // d empty: d/a
-	add(base, c2("move", "a/b", "b"))       // b/b
-	add(base, c2("move", "a", "b/d"))       // b/d/a exists as a FILE: kind conflict
-	add(base, c2("move", "b/d", "a"))       // a/d
+	add(base, c2("move", "c", "b"))                                 // b/c exists: overwritten
+	add(base, c2("move", "a", "d"))                                 // d empty: d/a
+	add(base, c2("move", "a/b", "b"))                               // b/b
+	add(base, c2("move", "a", "b/d"))                               // b/d/a exists as a FILE: kind conflict
+	add(base, c2("move", "b/d", "a"))                               // a/d
 	add(Dump{f("a/x", "1"), f("d/a/y", "2")}, c2("move", "a", "d")) // d/a exists and is not empty: refused
 	add(Dump{f("a/x", "1"), d("d/a")}, c2("move", "a", "d"))        // d/a exists and is empty: replaced
 	// the destination-shape tables
@@ -65,6 +69,13 @@ func corpus(r *h.Run) {
 			}
 		}
 	}
+	// Move's fall-back (rename refused, as across devices: copy then remove) must give the same outcome as the rename
+	for _, src := range []string{"c", "a/e.txt", "a", "a/", "a/b", "d", "a/.h"} {
+		for _, dst := range []string{"e.txt", "e.txt/", "d", "d/", "b", "b/", "b/c", "b/d", ".h/a/b", ".h/a/b/", "/", "a/b"} {
+			add(base, Call{Op: "move", P: src, Q: dst, FailRename: true})
+		}
+	}
+	add(Dump{f("a/x", "1"), d("d/a")}, Call{Op: "move", P: "a", Q: "d", FailRename: true})
 	for _, src := range []string{"c", "a", ".h", ""} {
 		for _, dst := range []string{"e.txt", "e.txt/", "d", "d/", "b/c", ".h/a", ""} {
 			add(base, c2("copytofile", src, dst))
@@ -97,7 +108,9 @@ func corpus(r *h.Run) {
 	r.CountN("corpus-programs", len(progs)-1)
 
 	// second sentence: kind conflicts, injected back-end faults at every operation index, cancellation at every index
-	loose := func(init Dump, calls ...Call) { runProgram(r, Program{Init: init, Calls: calls, Loose: true}, false, false) }
+	loose := func(init Dump, calls ...Call) {
+		runProgram(r, Program{Init: init, Calls: calls, Loose: true}, false, false)
+	}
 	conf := Dump{f("a/b", "file"), f("c", "x"), f("d/a/b", "y"), d("d/c")}
 	for _, c := range []Call{c1("mkdir", "a/b/c"), c1("mkdir", "c"), c1("touch", "a/b/c"), c1("touch", "c/"), {Op: "write", P: "a/b/c", Data: "z"},
 		{Op: "write", P: "d", Data: "z"}, {Op: "write", P: "c/", Data: "z"}, c1("read", "d"), c1("ls", "c"), c1("clean", "c"), c1("rm", "c/"), c1("lsrec", "c"),
@@ -106,6 +119,10 @@ func corpus(r *h.Run) {
 		c2("copytofile", "d", "c"), c2("copytofile", "c", "a/b/c"), c2("copytodir", "c", "a/b/c"), c2("copytodir", "d", "c"), c2("copytodir", "c", "a/b"), c1("subdirs", "c"), c1("findall", "c"), c1("tree", "c"), c1("hash", "d"), c1("size", "d")} {
 		loose(conf, c, c1("tree", "/"))
 	}
+	// a file copied / moved onto a directory that contains the source (in-memory: the directory used to be replaced by the file)
+	loose(Dump{f("a/b/b", "x"), f("a/b/.h", "y")}, c2("copy", "a/b/b", "a"), c1("tree", "/"))
+	loose(Dump{f("a/b/b", "x"), f("a/b/.h", "y")}, c2("copytodir", "a/b/b", "a"), c1("tree", "/"))
+	loose(Dump{f("a/b/b", "x"), f("a/b/.h", "y")}, c2("move", "a/b/b", "a"), c1("tree", "/"))
 	big := Dump{f("a/e.txt", "hello"), f("a/b/c", "deep"), f("a/b/d", "deeper"), d("a/.h"), d("d"), f("c", "x"), f("b/a/b/c", "old")}
 	for _, c := range []Call{c2("copy", "a", "d"), c2("copy", "a", "b"), c2("move", "a", "d"), c2("copy", "c", "d"), c2("move", "c", "d/"), c1("rm", "a"), c1("clean", "a"),
 		c1("lsrec", "a"), c1("tree", "/"), c1("findall", "/"), c1("read", "a/e.txt"), {Op: "write", P: "a/e.txt", Data: "new"}, c1("hash", "a/e.txt"), c1("ls", "a"),
@@ -220,6 +237,9 @@ func (g *gen) call(cur Dump) Call {
 			dst = g.pathIn(cur)
 		}
 		c := Call{Op: op, P: g.arg(src), Q: g.arg(dst)}
+		if op == "move" && rng.Intn(4) == 0 {
+			c.FailRename = true
+		}
 		if len(dst) == 0 {
 			c.Q = "/"
 		}
@@ -288,7 +308,7 @@ func (g *gen) initTree() Dump {
 // conflicts and collide with what exists); loose programs add kind conflicts, faults and cancellations.
 func generate(r *h.Run) {
 	g := &gen{r: r}
-	nStrict := r.N(130, 1500)
+	nStrict := r.N(350, 2500)
 	for i := 0; i < nStrict; i++ {
 		init := g.initTree()
 		n := 1 + r.Rng.Intn(40)
@@ -310,7 +330,7 @@ func generate(r *h.Run) {
 		tr := runProgram(r, p, true, true)
 		r.Count("strict-program-len<=" + bucket(len(tr)))
 	}
-	nLoose := r.N(60, 800)
+	nLoose := r.N(250, 1500)
 	for i := 0; i < nLoose; i++ {
 		p := Program{Init: g.initTree(), Loose: true}
 		n := 1 + r.Rng.Intn(40)
